@@ -39,6 +39,8 @@ fn materialise(dir: &str, name: &str, f: &Value, id: u64) -> Option<String> {
         "absent" => return None,
         "missing" => return Some(path),
         "hex" => std::fs::write(&path, hex(&data, id)).unwrap(),
+        // the file content is given literally (ASCII); whether it is hexadecimal text is decided by the specification
+        "text" => std::fs::write(&path, bytes_of(f.get("text").unwrap_or(&Value::Null))).unwrap(),
         "odd" => {
             let mut h = hex(&data, id);
             h.insert(0, 'a');
